@@ -69,12 +69,16 @@ def base_env(out):
 
 
 def _prune(cfgdir, keep):
+    """Remove cached fact directories older than two hours (never the newest `keep`): several trees may be
+    analysed concurrently, so recent entries must survive."""
     try:
         ents = sorted((os.path.getmtime(os.path.join(cfgdir, e)), e) for e in os.listdir(cfgdir))
     except FileNotFoundError:
         return
-    for _, e in ents[:-keep]:
-        shutil.rmtree(os.path.join(cfgdir, e), ignore_errors=True)
+    now = time.time()
+    for mt, e in ents[:-max(keep, 1)]:
+        if now - mt > 7200:
+            shutil.rmtree(os.path.join(cfgdir, e), ignore_errors=True)
 
 
 def facts_dir(config, sha=None):
